@@ -9,9 +9,11 @@
   lock, before it touches the file, holds it until Close, and releases it there and not earlier.
   The model is tied to /repo by the regenerated facts (`GIV.Gen.Lockedfile`: O_TRUNC stripping,
   lock-mode switch, truncate test, flag sets, statement order) and by trace refinement + strace on
-  every check run.  Proofs: `GIV/Lemmas/LockedfileOS.lean`, `GIV/Lemmas/LockedfileInv.lean`.
+  every check run.  Proofs: `GIV/Lemmas/LockedfileOS.lean`, `GIV/Lemmas/LockedfileInv.lean`,
+  `GIV/Lemmas/LockedfileLive.lean` (progress).
 -/
 import GIV.Lemmas.LockedfileInv
+import GIV.Lemmas.LockedfileLive
 
 namespace GIV.C06
 open GIV GIV.Lockedfile
@@ -295,5 +297,285 @@ theorem demoM_some : (run demoM).isSome = true := by decide +kernel
 example : (⟨0, 1, Gen.Lockedfile.flagsMutex, some 0⟩ : Handle) ∈ (((run demoM).get demoM_some).cl 0).held ∧
     (step ((run demoM).get demoM_some) (sy 1)).isNone = true := by
   decide +kernel
+
+/-! ### progress
+
+`Enabled s c`: some step of client `c` is defined in `s`.  `Busy s c`: `c` has an operation in progress.  A
+blocked system call is a step that is not enabled (for every fault and every chunk size).  The model has a
+client for every natural number and an idle client can always call a new operation, so "some client is
+enabled" alone says nothing: progress is stated for the clients that have an operation in progress (or hold
+a File they can Close). -/
+
+/-- client 0 is inside Transform(file 0) — past its flock, about to read —, client 1 has called Read(file 0)
+and is at its flock (LOCK_SH) -/
+def demoT : List Label :=
+  [⟨0, .call (.transform 0 fun b => some (b ++ [7]))⟩, sy 0, sy 0, ⟨1, .call (.read 0)⟩, sy 1]
+
+theorem demoT_some : (run demoT).isSome = true := by decide +kernel
+
+theorem demoT_reach : Reachable noFiles ((run demoT).get demoT_some) :=
+  reachable_run demoT .init (Option.some_get demoT_some).symm
+
+/-- in `demoT` client 1 waits at LOCK_SH for description 0 … -/
+theorem demoT_wait : FlockWait ((run demoT).get demoT_some) 1 0 :=
+  FlockWait.ofFrame (fd := 1) (k' := .ex) (by decide +kernel) (by decide +kernel) (by decide +kernel) (by decide)
+    (by show (((run demoT).get demoT_some).w.locks _).ex = some 0; decide +kernel) (.inr rfl)
+
+/-- … which is the descriptor of client 0's Transform, holding the write lock. -/
+theorem demoT_holder : HeldByOp ((run demoT).get demoT_some) 0 0 :=
+  HeldByOp.ofFrame (by decide +kernel) (by decide +kernel) (by decide +kernel)
+
+/-- **What blocks, and on whom** (the strongest true form of `blocked_only_by_holder_statement`).  In every
+reachable state a client with an operation in progress that has NO enabled step is
+* at the flock(2) call of openFile (LOCK_EX or LOCK_SH), and a conflicting lock on that file is held by ANOTHER
+  open file description `fd'` (`FlockWait`: `fd'` is not the client's own descriptor, it holds a lock on the
+  same file, and the request or that lock is exclusive), which is an open description on that file; or
+* at the `mu.mu.Lock()` of Mutex.Lock — after it got the file lock — and the in-process mutex is owned by
+  client `c'` (`MuWait`).
+The second case exists because the model lets two Mutex values share their `sync.Mutex` but not their path
+(`Op.mutexLock p m` with independent `p`, `m`); see `blocked_only_by_holder_statement_false`. -/
+theorem blocked_only_by_holder_partial {files0 : Path → Option Bytes} {s : State} (hr : Reachable files0 s)
+    {c : Cid} {fr : Frame} (hc : (s.cl c).cur = some fr) (hb : ¬ Enabled s c) :
+    (∃ fd', FlockWait s c fd' ∧ ∃ o, s.w.fds fd' = some o ∧ o.path = fr.op.path) ∨ (∃ c', MuWait s c c') := by
+  rcases busy_cases (reachable_Inv1 hr) (reachable_MuInv hr) hc with ⟨r, s', _, hs⟩ | ⟨_, hs⟩ | ⟨fd', hw⟩ | hw
+  · exact absurd ⟨_, _, hs⟩ hb
+  · obtain ⟨s', hs⟩ := hs .none; exact absurd ⟨_, _, hs⟩ hb
+  · left
+    refine ⟨fd', hw, ?_⟩
+    obtain ⟨fr', fd, k', hc', _, _, _, hh, _⟩ := hw
+    rw [hc] at hc'; cases hc'
+    exact (reachable_Inv1 hr).world.holderOpen _ _ _ hh
+  · exact .inr hw
+
+example : ∃ s c fr, Reachable noFiles s ∧ (s.cl c).cur = some fr ∧ ¬ Enabled s c ∧ FlockWait s c 0 :=
+  ⟨_, 1, _, demoT_reach, (Option.some_get (by decide +kernel)).symm,
+    demoT_wait.blocked (reachable_Inv1 demoT_reach), demoT_wait⟩
+
+/-- … and everything else is always enabled: a client with an operation in progress that is in neither of
+the two situations can return (if its operation is finished) or perform its next system call — open, read,
+write, pwrite, ftruncate, fstat, close, LOCK_UN, flock on a compatible table, `mu.mu.Unlock()` — with EVERY
+injected fault; conversely in the two situations no step of it is enabled, whatever the fault. -/
+theorem enabled_unless_waiting {files0 : Path → Option Bytes} {s : State} (hr : Reachable files0 s)
+    {c : Cid} {fr : Frame} (hc : (s.cl c).cur = some fr) :
+    ((∀ fd', ¬ FlockWait s c fd') → (∀ c', ¬ MuWait s c c') →
+      (∃ r s', fr.pc = .done r ∧ step s ⟨c, .ret⟩ = some s') ∨ ∀ f, ∃ s', step s ⟨c, .sys f 1⟩ = some s') ∧
+    ((∃ fd', FlockWait s c fd') ∨ (∃ c', MuWait s c c') → ∀ a, step s ⟨c, a⟩ = none) := by
+  constructor
+  · intro h1 h2
+    rcases busy_cases (reachable_Inv1 hr) (reachable_MuInv hr) hc with h | ⟨_, h⟩ | ⟨fd', hw⟩ | ⟨c', hw⟩
+    · exact .inl h
+    · exact .inr h
+    · exact absurd hw (h1 fd')
+    · exact absurd hw (h2 c')
+  · intro h a
+    have hb : ¬ Enabled s c := by
+      rcases h with ⟨fd', hw⟩ | ⟨c', hw⟩
+      · exact hw.blocked (reachable_Inv1 hr)
+      · exact hw.blocked
+    cases hs : step s ⟨c, a⟩ with
+    | none => rfl
+    | some s' => exact absurd ⟨a, s', hs⟩ hb
+
+example : ∀ f, (step ((run demoT).get demoT_some) ⟨1, .sys f 1⟩) = none :=
+  fun f => ((enabled_unless_waiting demoT_reach (c := 1) (Option.some_get (by decide +kernel)).symm).2
+    (.inl ⟨0, demoT_wait⟩)) _
+
+/-- the statement as first asked for: a blocked client is always blocked at a flock -/
+def blocked_only_by_holder_statement : Prop :=
+  ∀ (files0 : Path → Option Bytes) (s : State), Reachable files0 s → ∀ c fr, (s.cl c).cur = some fr →
+    ¬ Enabled s c → ∃ fd', FlockWait s c fd'
+
+/-- client 0 holds the Mutex (lock file 1, sync.Mutex 0); client 1 calls Mutex.Lock for lock file 2 with the
+SAME sync.Mutex 0: it gets the flock on file 2 and then waits at `mu.mu.Lock()` -/
+def demoMu : List Label :=
+  [⟨0, .call (.mutexLock 1 0)⟩, sy 0, sy 0, sy 0, ⟨0, .ret⟩, ⟨1, .call (.mutexLock 2 0)⟩, sy 1, sy 1]
+
+theorem demoMu_some : (run demoMu).isSome = true := by decide +kernel
+
+/-- … is FALSE for the model: in `demoMu` client 1 is blocked at `mu.mu.Lock()`, not at a flock.  (In the
+package the sync.Mutex is a field of the Mutex value next to its Path, so this needs two Mutex values that
+share one sync.Mutex; the model does not tie `m` to `p`.) -/
+theorem blocked_only_by_holder_statement_false : ¬ blocked_only_by_holder_statement := by
+  intro h
+  have hr : Reachable noFiles ((run demoMu).get demoMu_some) :=
+    reachable_run demoMu .init (Option.some_get demoMu_some).symm
+  have hmus : ((run demoMu).get demoMu_some).w.mus 0 = true := by decide +kernel
+  obtain ⟨c', hc'⟩ := (reachable_MuInv hr).owner hmus
+  have hw : MuWait ((run demoMu).get demoMu_some) 1 c' :=
+    MuWait.ofFrame (fd := 1) (m := 0) (by decide +kernel) (by decide +kernel) hmus hc'
+  obtain ⟨fr, hcur⟩ : ∃ fr, (((run demoMu).get demoMu_some).cl 1).cur = some fr := by
+    obtain ⟨fr, _, _, hcur, _⟩ := hw; exact ⟨fr, hcur⟩
+  obtain ⟨fd', hf⟩ := h _ _ hr 1 fr hcur hw.blocked
+  exact hw.not_flockWait hf
+
+/-- **The holder can release.**  Let description `fd` hold a lock in a reachable state.
+(1) If it is the descriptor of the running operation of client `c` (Read, Write, Transform, Close, the unlock
+function, or OpenFile / Mutex.Lock after their flock), then `c` is NOT waiting at a flock; it has an enabled
+step unless it is at the `mu.mu.Lock()` of Mutex.Lock and the in-process mutex is taken; and there is a run of at
+most `relLeft s.w fr` fault-free system calls of `c` alone — `relLeft` = remaining program of the operation,
+`pcLeft`: e.g. 2 at closeFile's Unlock, `bytes left to read + 3` in Read, `len(content) + 3` in Write,
+`bytes left to read + 8` in Transform — after which the lock is released, or OpenFile / Mutex.Lock is about to
+hand the locked file to its caller, or Mutex.Lock waits for the in-process mutex.
+(2) If it is a File / Mutex handed out to `c` and `c` is idle, `c` can call Close / unlock and that call releases
+the lock with its 2nd (Mutex: 3rd) step.
+Exceptions, stated precisely: a handed-out File whose user never calls Close is never released (`held_until_close`);
+a handed-out File whose user is busy with another operation is released only after that operation — which may
+itself wait for this very File (`self_deadlock` below); and a lock leaked by a failed Unlock followed by a
+failed / shared close (case (D) of `holder_step_cases`) belongs to nobody. -/
+theorem holder_can_release {files0 : Path → Option Bytes} {s : State} (hr : Reachable files0 s) {c : Cid} {fd : Fd} :
+    (∀ fr, (s.cl c).cur = some fr → fr.pc.fd? = some fd → fr.pc.locked = true →
+      (∀ fd', ¬ FlockWait s c fd') ∧ (Enabled s c ∨ ∃ c', MuWait s c c') ∧
+      ∃ ls s', (∀ l ∈ ls, l = ⟨c, .sys .none 1⟩) ∧ ls.length ≤ relLeft s.w fr ∧ runLabels s ls = some s' ∧
+        ((∀ p k, ¬ holdsFd s'.w fd p k) ∨
+         (∃ fr', (s'.cl c).cur = some fr' ∧ fr'.pc = .done (.handle fd) ∧ fr'.op = fr.op) ∨
+         (∃ c', MuWait s' c c'))) ∧
+    (∀ h ∈ (s.cl c).held, h.fd = fd → (s.cl c).cur = none →
+      ∃ ls s', ls.length ≤ 3 ∧ (∀ l ∈ ls, l.c = c) ∧ ls.head? = some ⟨c, .call (closeOp h)⟩ ∧
+        runLabels s ls = some s' ∧ ∀ p k, ¬ holdsFd s'.w fd p k) := by
+  refine ⟨fun fr hc hfd hl => ⟨fun fd' => HeldByOp.not_flockWait ⟨fr, hc, hfd, hl⟩, ?_,
+    holder_releases _ hr hc hfd hl (Nat.le_refl _)⟩, fun h hm hfd hc => ?_⟩
+  · rcases busy_cases (reachable_Inv1 hr) (reachable_MuInv hr) hc with ⟨r, s', _, hs⟩ | ⟨_, hs⟩ | ⟨fd', hw⟩ | hw
+    · exact .inl ⟨_, _, hs⟩
+    · obtain ⟨s', hs⟩ := hs .none; exact .inl ⟨_, _, hs⟩
+    · exact absurd hw (HeldByOp.not_flockWait ⟨fr, hc, hfd, hl⟩)
+    · exact .inr hw
+  · subst hfd; exact handle_releases hr hc hm
+
+/-- One step of the holder, with ANY fault: (A) it releases the lock, (B) the holder keeps it and its bound
+`relLeft` decreases strictly, (C) closeFile's Unlock got an injected EINTR and is retried, or (D) the close(2)
+after a failed Unlock failed too or hit a shared description: the lock is leaked. -/
+theorem holder_step_cases {files0 : Path → Option Bytes} {s s' : State} (hr : Reachable files0 s) {c : Cid}
+    {fr : Frame} {fd : Fd} {f : Fault} {n : Nat} (hc : (s.cl c).cur = some fr) (hfd : fr.pc.fd? = some fd)
+    (hl : fr.pc.locked = true) (hs : step s ⟨c, .sys f n⟩ = some s') :
+    (∀ p k, ¬ holdsFd s'.w fd p k) ∨
+    (∃ fr', (s'.cl c).cur = some fr' ∧ fr'.op = fr.op ∧ fr'.pc.fd? = some fd ∧ fr'.pc.locked = true ∧
+      relLeft s'.w fr' < relLeft s.w fr) ∨
+    (f = .eintr ∧ ∃ ret fr', fr.pc = .unlock fd ret ∧ (s'.cl c).cur = some fr' ∧ fr'.pc = .unlock fd ret ∧ s'.w = s.w) ∨
+    ((f = .fail ∨ f = .eintr ∨ f = .shared) ∧ ∃ ret, fr.pc = .close fd ret true) :=
+  holder_step (reachable_Inv1 hr) (reachable_MuInv hr) hc hfd hl hs
+
+/-- in `demoT` the holder is client 0's Transform, at its first read of the (empty) file: the bound is 8; four
+fault-free steps of client 0 (read → EOF, WriteAt of the tail, WriteAt of the body, Unlock) release the lock, and client 1's LOCK_SH is enabled. -/
+example : HeldByOp ((run demoT).get demoT_some) 0 0 ∧
+    ((((run demoT).get demoT_some).cl 0).cur.map fun fr => relLeft ((run demoT).get demoT_some).w fr) = some 8 ∧
+    ((run (demoT ++ [sy 0, sy 0, sy 0, sy 0])).map fun s => ((s.w.locks 0).ex, (step s (sy 1)).isSome)) = some (none, true) :=
+  ⟨demoT_holder, by decide +kernel, by decide +kernel⟩
+
+/-- client 0 got a File from Edit(file 0) and, still holding it, calls Read(file 0): it opens a second
+description and waits at LOCK_SH for its own first one -/
+def demoSelf : List Label :=
+  [⟨0, .call (.edit 0)⟩, sy 0, sy 0, ⟨0, .ret⟩, ⟨0, .call (.read 0)⟩, sy 0]
+
+theorem demoSelf_some : (run demoSelf).isSome = true := by decide +kernel
+
+/-- **The self-deadlock exception**: a reachable state in which the only client with an operation in progress
+is client 0, it has no enabled step, and the description that blocks it is a File that client 0 itself holds
+and can only Close after the blocked call returns.  (As in the real package: flock locks belong to the open
+file description, so a process conflicts with itself.) -/
+theorem self_deadlock : ∃ s, Reachable noFiles s ∧ FlockWait s 0 0 ∧ HeldByHandle s 0 0 ∧ ¬ Enabled s 0 ∧
+    ∀ c, c ≠ 0 → ¬ Busy s c := by
+  have hr : Reachable noFiles ((run demoSelf).get demoSelf_some) :=
+    reachable_run demoSelf .init (Option.some_get demoSelf_some).symm
+  have hw : FlockWait ((run demoSelf).get demoSelf_some) 0 0 :=
+    FlockWait.ofFrame (fd := 1) (k' := .ex) (by decide +kernel) (by decide +kernel) (by decide +kernel) (by decide)
+      (by show (((run demoSelf).get demoSelf_some).w.locks _).ex = some 0; decide +kernel) (.inr rfl)
+  refine ⟨_, hr, hw, ⟨⟨0, 0, Gen.Lockedfile.flagsEdit, none⟩, by decide +kernel, rfl⟩, hw.blocked (reachable_Inv1 hr), ?_⟩
+  intro c hc ⟨fr, hfr⟩
+  have := run_other_client c demoSelf (s := init noFiles) (Option.some_get demoSelf_some).symm
+    (by intro l hl; simp only [demoSelf, sy, List.mem_cons, List.not_mem_nil, or_false] at hl
+        rcases hl with rfl | rfl | rfl | rfl | rfl | rfl <;> exact fun e => hc e.symm)
+  rw [this] at hfr; cases hfr
+
+/-- **No deadlock when waiting is acyclic.**  Hypotheses, on the state: no lock has been leaked (`NoLeak`: every
+lock in the table belongs to a running operation or to a handed-out File), and no blocked client holds a
+File / Mutex — in particular when every client runs one package operation at a time and does not call into the
+package while it holds a File.  Then in every reachable state with an operation in progress SOME client can
+make progress: a client with an operation in progress has an enabled step, or an idle client can call Close /
+unlock on a File / Mutex it holds.  (Without the second hypothesis: `self_deadlock`.) -/
+theorem no_deadlock_acyclic {files0 : Path → Option Bytes} {s : State} (hr : Reachable files0 s) (hleak : NoLeak s)
+    (hacyc : ∀ c, Busy s c → ¬ Enabled s c → (s.cl c).held = []) (hbusy : ∃ c, Busy s c) :
+    ∃ c, (Busy s c ∧ Enabled s c) ∨
+      ((s.cl c).cur = none ∧ ∃ h ∈ (s.cl c).held, ∃ s', step s ⟨c, .call (closeOp h)⟩ = some s') :=
+  deadlock_free_acyclic (reachable_Inv1 hr) (reachable_MuInv hr) hleak hacyc hbusy
+
+/-- … and a state in which nobody can make progress is final: every operation has returned, every File has
+been closed, the lock table is empty. -/
+theorem maximal_is_final {files0 : Path → Option Bytes} {s : State} (hr : Reachable files0 s) (hleak : NoLeak s)
+    (hacyc : ∀ c, Busy s c → ¬ Enabled s c → (s.cl c).held = []) (hq : ∀ c, ¬ CanProgress s c) :
+    (∀ c, (s.cl c).cur = none ∧ (s.cl c).held = []) ∧ ∀ fd p k, ¬ holdsFd s.w fd p k :=
+  quiescent_final (reachable_Inv1 hr) (reachable_MuInv hr) hleak hacyc hq
+
+/-- the hypotheses hold (and an operation is in progress) after client 0 has called Read -/
+example : ∃ s, Reachable noFiles s ∧ NoLeak s ∧ (∀ c, Busy s c → ¬ Enabled s c → (s.cl c).held = []) ∧ Busy s 0 := by
+  have hs := step_call_mk (s := init noFiles) (c := 0) (op := .read 0) rfl rfl
+  refine ⟨_, Reachable.step _ .init hs, ?_, ?_, ⟨_, by rw [setClient_cl_same]⟩⟩
+  · intro fd p k h; cases k <;> simp [holdsFd, setClient, init, initWorld] at h
+  · intro c _ _
+    by_cases hc : c = 0
+    · subst hc; rw [setClient_cl_same]; rfl
+    · rw [setClient_cl_other _ _ _ _ hc]; rfl
+
+/-- the initial state is final in the sense of `maximal_is_final` -/
+example : ∀ c, ¬ CanProgress (init noFiles) c := by
+  rintro c (⟨⟨fr, h⟩, _⟩ | ⟨_, h, hm, _⟩)
+  · simp [init] at h
+  · simp [init] at hm
+
+/-- **The EINTR retry loop terminates when the EINTR faults do.**  The model has no fault budget: the fault of
+every system call is an environment choice (`Act.sys f n`), recorded in the ghost list `Frame.flt`.  Along ANY
+execution: if client `c` is at the flock of openFile and at most `k` EINTR faults are injected into its steps,
+then after at most `k + 1` steps of `c` — i.e. at most `k + 1` flock calls; a blocked flock is not a step — the
+loop has been left: the lock was granted or openFile failed with the other error. -/
+theorem eintr_retry_terminates {c : Cid} {fd : Fd} {ls : List Label} {s s' : State} {fr : Frame} {k : Nat}
+    (hrun : runLabels s ls = some s') (hc : (s.cl c).cur = some fr) (hpc : fr.pc = .lock fd)
+    (hno : ∀ l ∈ ls, l.c = c → ∀ op, l.a ≠ .call op)
+    (hk : ls.countP (fun l => l.c == c && l.a.isEintr) ≤ k) (hsteps : k + 1 ≤ ls.countP (fun l => l.c == c)) :
+    ∀ fr', (s'.cl c).cur = some fr' → fr'.pc.pastLock = true :=
+  eintr_budget hrun hc hpc hno hk hsteps
+
+/-- … more precisely: whenever `c` is found at a flock again, it is the same flock, every step `c` took was a
+flock call answered by an injected EINTR, and the ghost fault list has grown by exactly that many entries. -/
+theorem eintr_retry_counts {c : Cid} {fd : Fd} {ls : List Label} {s s' : State} {fr fr' : Frame}
+    (hrun : runLabels s ls = some s') (hc : (s.cl c).cur = some fr) (hpc : fr.pc = .lock fd)
+    (hno : ∀ l ∈ ls, l.c = c → ∀ op, l.a ≠ .call op) (hc' : (s'.cl c).cur = some fr')
+    (hp' : fr'.pc.pastLock = false) :
+    (∀ l ∈ ls, l.c = c → ∃ n, l.a = .sys .eintr n) ∧ fr'.pc = .lock fd ∧ fr'.op = fr.op ∧
+      fr'.flt = List.replicate (ls.countP (fun l => l.c == c)) (Tag.lock, Fault.eintr) ++ fr.flt :=
+  eintr_loop_run c fd ls hrun hc hpc hno hc' hp'
+
+/-- client 0's Edit: two EINTRs at its flock, then the third call succeeds (k = 2, three flock calls) -/
+example : ((run [⟨0, .call (.edit 0)⟩, sy 0]).map fun s => (s.cl 0).cur.map (·.pc)) = some (some (.lock 0)) ∧
+    ((run ([⟨0, .call (.edit 0)⟩, sy 0] ++ [⟨0, .sys .eintr 0⟩, ⟨0, .sys .eintr 0⟩])).map
+      fun s => (s.cl 0).cur.map fun fr => (fr.pc, fr.flt)) =
+      some (some (.lock 0, [(.lock, .eintr), (.lock, .eintr)])) ∧
+    ((run ([⟨0, .call (.edit 0)⟩, sy 0] ++ [⟨0, .sys .eintr 0⟩, ⟨0, .sys .eintr 0⟩, sy 0])).map
+      fun s => (s.cl 0).cur.map fun fr => fr.pc.pastLock) = some (some true) := by
+  refine ⟨by decide +kernel, by decide +kernel, by decide +kernel⟩
+
+/-- client 0 has called Edit(file 0) and opened the file: it is at its flock, nothing is locked -/
+def demoE : List Label := [⟨0, .call (.edit 0)⟩, sy 0]
+
+theorem demoE_some : (run demoE).isSome = true := by decide +kernel
+
+/-- the unrestricted termination statement: from a reachable state, no execution in which no new operation is
+called (only the operations already in progress run) is infinite -/
+def terminates_statement : Prop :=
+  ∀ (files0 : Path → Option Bytes) (s : State), Reachable files0 s →
+    ¬ ∃ (σ : Nat → State) (τ : Nat → Label), σ 0 = s ∧ (∀ i op, (τ i).a ≠ .call op) ∧
+      ∀ i, step (σ i) (τ i) = some (σ (i + 1))
+
+/-- … is FALSE for the model: it has no fault budget, so the environment can answer the flock of one Edit with
+EINTR for ever (`eintr_forever`).  Hence there is no measure that decreases with every non-blocked step; what
+holds is `eintr_retry_terminates` (the loop ends when the EINTRs do), `holder_step_cases` (B) (the holder's bound
+decreases with each of its steps that is not such a retry) and `maximal_is_final`. -/
+theorem terminates_statement_false : ¬ terminates_statement := by
+  intro h
+  have hr : Reachable noFiles ((run demoE).get demoE_some) :=
+    reachable_run _ .init (Option.some_get demoE_some).symm
+  have h0 : AtFreeFlock 0 0 ((run demoE).get demoE_some) :=
+    AtFreeFlock.ofFrame (by decide +kernel) (by decide +kernel) (by decide +kernel) (by decide +kernel)
+      (by decide +kernel)
+  obtain ⟨σ, hσ0, hσ⟩ := eintr_forever h0
+  exact h _ _ hr ⟨σ, fun _ => ⟨0, .sys .eintr 0⟩, hσ0, fun _ _ e => Act.noConfusion e, hσ⟩
 
 end GIV.C06
